@@ -433,6 +433,26 @@ func init() {
 						}
 					}
 				}
+				// fixed three-worker programs: calls made of several walks (MkdirAll's check for broken links, Rename's two
+				// walks) against symbolic links and directories that come, go and move meanwhile
+				if fsType == "MemFS" {
+					fixed := [][][]fsx.Op{
+						{{{K: "MkdirAll", P: "/w/a/x", Perm: 0o755}}, {{K: "OpenWriteClose", P: "/w/b", Flag: syscall.O_RDWR | syscall.O_CREAT | syscall.O_TRUNC, Perm: 0o644}, {K: "Remove", P: "/w/a"}}, {{K: "Symlink", P: "b", Q: "/w/a"}}},
+						{{{K: "MkdirAll", P: "/w/d/a", Perm: 0o755}}, {{K: "Symlink", P: "a", Q: "/w/d/a"}, {K: "Rename", P: "/w/a", Q: "/w/d/x"}}, {{K: "Rename", P: "/w/d", Q: "/w/a"}}},
+						{{{K: "MkdirAll", P: "/w/a/x", Perm: 0o755}}, {{K: "Symlink", P: "zz", Q: "/w/a"}}, {{K: "Remove", P: "/w/a"}}},
+						{{{K: "MkdirAll", P: "/w/a/x/y", Perm: 0o755}}, {{K: "Symlink", P: "d", Q: "/w/a"}, {K: "Remove", P: "/w/a"}}, {{K: "Rename", P: "/w/d", Q: "/w/e"}}},
+						{{{K: "Link", P: "/w/a", Q: "/w/d/l"}}, {{K: "Symlink", P: "b", Q: "/w/a"}, {K: "Remove", P: "/w/a"}}, {{K: "Rename", P: "/w/d", Q: "/w/e"}}},
+					}
+					for _, progs := range fixed {
+						for ti, tree := range trees {
+							idx++
+							if idx%c.NShards != c.Shard {
+								continue
+							}
+							c06Program(c, fsType, ti, tree, progs, c.Pick(2, 3), c.Pick(600, 4000), c.Pick(20, 60), st, r)
+						}
+					}
+				}
 				// larger random programs
 				for k := 0; k < c.Pick(120, 3000); k++ {
 					idx++
